@@ -15,7 +15,7 @@ from AegeanTools.models import ComponentSource
 from AegeanTools.source_finder import SourceFinder
 from AegeanTools.wcs_helpers import WCSHelper
 from vlib import refs, skyimg
-from vlib.core import Res
+from vlib.core import Res, workdir
 
 PROP = "C14"
 SHARDS = {"quick": 16, "thorough": 16}
@@ -211,7 +211,7 @@ def check_case(c):
         if stray.any():
             i, j = [int(v[0]) for v in np.where(stray)]
             res.bad("stray-flux", "model has %.3g at pixel (%d,%d), far from every on-image source" % (float(model[i, j]), i, j), **tags)
-    d = tempfile.mkdtemp(prefix="c14_")
+    d = workdir("c14_")
     try:
         if mode == "additive" and len(cat) >= 2:
             k = max(1, min(len(cat) - 1, c["split"] % len(cat)))
@@ -371,7 +371,7 @@ def check_loop(c):
         if x["peak"] > 1.05 * float(img[max(0, i - 1):i + 2, max(0, j - 1):j + 2].max()) + 3 * rms:
             res.excluded_known += 1
             return res
-    d = tempfile.mkdtemp(prefix="c14l_")
+    d = workdir("c14l_")
     try:
         path = os.path.join(d, "im.fits")
         skyimg.write_fits(path, img, hdr, dtype=np.float64)
